@@ -135,6 +135,7 @@ func runHistory(r *Run, g *Gen, hc histCfg) {
 				hc.checkImage(fmt.Sprintf("after modification %s of cp=%d", m.Describe(), s.CPSEID), "mod:"+m.Tag)
 			} else if res.Rx != nil && r.AgentAlive() {
 				r.Probe("valid-modification-rejected:" + m.Tag)
+				r.RejectedValid(s.UPSEID)
 			}
 		case 2: // delete
 			s := live[r.Ch.Choose(len(live), "sess")]
@@ -146,6 +147,7 @@ func runHistory(r *Run, g *Gen, hc histCfg) {
 				hc.checkImage(fmt.Sprintf("after deletion of cp=%d", s.CPSEID), "del")
 			} else if res.Rx != nil && r.AgentAlive() {
 				r.Probe("valid-deletion-rejected")
+				r.RejectedValid(s.UPSEID)
 			}
 		case 3: // request naming an unknown session: must be rejected and write nothing
 			bogus := uint64(0xDEAD0000) + uint64(r.Ch.Choose(1000, "bogus"))
